@@ -43,10 +43,11 @@ def piD (dt : Data) (c : Cfg) (D : List ℕ) (x : T) : ℚ := if x ∈ finals c 
 def uOrd (x : T) (σ : List ℕ) : ℚ :=
   if σ ∈ allOrders x.f x.out then 1 / countCode x.f x.out.length else 0
 
-/-- the conditional SMC kernel along `σ`, on the common state space of all orders -/
+/-- the conditional SMC kernel along `σ` (with the code's schedule, `ASMC.kernelX`), on the common state
+space of all orders -/
 def kernelAlong (dt : Data) (c : Cfg) (D : List ℕ) (κ θ : ℚ) (m : ℕ) (u : ℚ) (s : Ord D)
     (x y : St (allStates c D)) : ℚ :=
-  ASMC.kernel (spec dt c s.1 κ (allStates c D) (states_sub_allStates s.2) θ m) u s.1.length x y
+  ASMC.kernelX (spec dt c s.1 κ (allStates c D) (states_sub_allStates s.2) θ m) u s.1.length x y
 
 /-- the particle-Gibbs kernel: draw the order, sweep along it -/
 def pgKernel (dt : Data) (c : Cfg) (D : List ℕ) (κ θ : ℚ) (m : ℕ) (u : ℚ) (x y : St (allStates c D)) : ℚ :=
@@ -157,7 +158,7 @@ theorem pg_invariant_abstract (h : HypD dt c D) (κ : ℚ) (hκ : 0 < κ) (θ : 
     apply mul_left_cancel₀ (ne_of_gt hκ)
     rw [Finset.mul_sum]
     simp only [← mul_assoc, piD_uOrd h κ s]
-    exact pg_csmc_invariant (h.hyp s.2) hκ (states_sub_allStates s.2) θ m u hu y
+    exact pg_csmc_invariant_X (h.hyp s.2) hκ (states_sub_allStates s.2) θ m u hu y
 
 #print axioms pg_invariant_abstract
 end PhyModel.PG
